@@ -27,6 +27,8 @@ func runC05(r *hk.Run) {
 	runVarints(r, rng.Fork())
 	runH2Read(r, rng.Fork())
 	runH2Write(r, rng.Fork())
+	runH2Meta(r, rng.Fork())
+	runVarintReaders(r, rng.Fork())
 	runH3Frames(r, rng.Fork())
 	runH3Fields(r, rng.Fork())
 }
